@@ -436,5 +436,12 @@ def cd_multi(prog: Program) -> RuleResult:
     return r
 
 
+def _shared_default(prog):
+    # derived views share nothing with the diagram they come from, default arguments included
+    from .shareddefault import shared_default
+
+    return shared_default(prog, ["class_diagrams."], 50)
+
+
 def run(prog: Program, tier: str) -> List[RuleResult]:
-    return [wf_table(prog), cd_edges(prog), cd_readonly(prog), cd_memo(prog), cd_multi(prog)]
+    return [wf_table(prog), cd_edges(prog), cd_readonly(prog), cd_memo(prog), cd_multi(prog), _shared_default(prog)]
